@@ -1,6 +1,7 @@
 //! Harness library: see /verif/DESIGN.md.
 pub mod env;
 pub mod family;
+pub mod fl;
 pub mod hooks;
 pub mod lg;
 pub mod props;
